@@ -7,11 +7,21 @@
    The confinement clause at full strength is FALSE of the faithful model and of
    the C (known finding, KNOWN_FINDINGS.txt): confinement_refuted below exhibits
    a 215-byte archive for which `lha xf` in a clean, link-free directory creates a
-   symbolic link in /outside.  What holds and is proved: the deferred list is kept
-   longest path first; the read-only commands are decided by the check (tree
-   identical before and after on the real tool) until the theorem over the model
-   is complete (P_CliSafe.v, in progress). *)
-From Lhasa Require Import Base Generated Header Fs FsRun Reader CliExtract CliMain InputStream ListOut.
+   symbolic link in /outside.  What holds and is proved (P_CliSafe, P_CliOrder,
+   P_FsConfine, P_CliPath, P_CliConfine, P_CliConfineAll):
+     - list, test, print and every dry run leave the filesystem record untouched;
+     - for ANY invocation the trace is  late ++ early ++ initial  with no dangerous-link
+       creation in early and only symlink / unlink / mkdir operations in late (the
+       mkdir is make_parent_directories running for deferred links -- part of the
+       known finding, ordering_mkdir_witness); the deferred list is longest first;
+     - a link at the final path component is reported, never followed;
+     - confinement until the first dangerous link exists: in a tree whose links are
+       all safe (relative, no '..'; in particular a link-free tree) every operation
+       of an extraction resolves below the extraction directory up to and including
+       the creation of the first dangerous link.  What can follow it is exactly the
+       known finding. *)
+From Lhasa Require Import Base Loop Generated Header Fs FsRun Glob Reader CliExtract CliMain InputStream ListOut
+  P_CliSafe P_CliOrder P_FsConfine P_CliPath P_CliConfine P_CliConfineAll.
 Local Open Scope N_scope.
 
 (* ---- the deferred list: longest path first ---- *)
@@ -76,6 +86,67 @@ Theorem confinement_refuted :
   exists r, escape_run = Ok r /\ existsb outside_root (fs_trace (cr_fs r)) = true.
 Proof. eexists. split; [vm_compute; reflexivity|vm_compute; reflexivity]. Qed.
 
+(* ---- the read-only commands ---- *)
+
+(* l, v, t, p (with any options, with or without '-') and x / e with option n are
+   read-only invocations ... *)
+Theorem list_test_print_are_read_only : forall (c : N) (opts : list N) (mode : program_mode) (o : lha_options),
+  In c [108; 118; 116; 112] ->
+  (parse_command_line (c :: opts) = Some (mode, o) -> read_only_command mode o = true) /\
+  (parse_command_line (45 :: c :: opts) = Some (mode, o) -> read_only_command mode o = true).
+Proof. exact command_letters_read_only. Qed.
+
+Theorem dry_run_is_read_only : forall (c : N) (pre rest : list N) (mode : program_mode) (o : lha_options),
+  In c [120; 101] -> ~ In 119 pre ->
+  (parse_command_line (c :: pre ++ 110 :: rest) = Some (mode, o) -> read_only_command mode o = true) /\
+  (parse_command_line (45 :: c :: pre ++ 110 :: rest) = Some (mode, o) -> read_only_command mode o = true).
+Proof. exact extract_n_read_only. Qed.
+
+(* ... and a read-only invocation, on ANY archive bytes, standard input and initial tree,
+   returns the filesystem exactly as it found it, with an empty operation trace *)
+Theorem read_only_commands_touch_nothing : forall mktime localtime strerror uid0 now mtime argv archive stdin setup r,
+  read_only_invocation argv = true ->
+  cli_run mktime localtime strerror uid0 now mtime argv archive stdin setup = Ok r ->
+  cr_fs r = cli_fs_init uid0 archive mtime setup /\ fs_trace (cr_fs r) = [].
+Proof. exact cli_run_read_only. Qed.
+
+(* ---- the order of operations, for ANY invocation ---- *)
+Theorem dangerous_links_come_last : forall mktime junk localtime now stdin_kind strerror argv stdin (s : fs) r,
+  lha_main mktime junk localtime now stdin_kind strerror argv stdin s = Ok r ->
+  two_phase s (cr_fs r) /\ ordered_since s (cr_fs r).
+Proof. exact lha_main_order. Qed.
+
+(* ---- a link at the final component is never followed ---- *)
+Theorem final_component_is_not_followed : forall (s : fs) (p : list N) (parent : phys) (lst : name) (found : option node),
+  trailing_slash p = false -> resolve s p false = WOk parent lst found ->
+  lst = last (split_path p) [] /\ nodd lst /\
+  exists o pm t ents, Fs.node_at (fs_root s) parent = Some (Dir o pm t ents) /\ lookup ents lst = found.
+Proof. exact final_component_not_followed. Qed.
+
+(* ---- confinement until the first dangerous link exists ---- *)
+Theorem confined_until_first_dangerous_link : forall mktime junk (R : phys) (o0 : lha_options), good_w o0 ->
+  forall (flt : lha_filter) (st0 : cli_state) (strm : istream) (v : res bool) (st : cli_state),
+  fs_ok R (cs_fs st0) -> cs_opts st0 = o0 -> cs_reader st0 = lha_reader_new strm ->
+  extract_archive mktime junk flt st0 = Ok (v, st) ->
+  exists new, fs_trace (cs_fs st) = new ++ fs_trace (cs_fs st0) /\
+    ((forall o, In o new -> below_op R o) \/
+     (exists late d early, new = late ++ d :: early /\ dangerous_op d /\ below_op R d /\
+        forall o, In o early -> below_op R o /\ ~ dangerous_op o)).
+Proof. exact extract_trace_confined. Qed.
+
+(* the path handed to the library: relative, components = those of w=DIR followed by the
+   header's real names, none of them '..' except possibly a last component the resolution
+   then refuses *)
+Theorem extraction_paths_are_relative : forall (h : header) (o : lha_options), hdr_c11 h -> good_w o -> good_str (file_full_path h o).
+Proof. exact file_full_path_good. Qed.
+
 Print Assumptions insert_deferred_keeps_longest_first.
 Print Assumptions insert_deferred_adds_one.
 Print Assumptions confinement_refuted.
+Print Assumptions list_test_print_are_read_only.
+Print Assumptions dry_run_is_read_only.
+Print Assumptions read_only_commands_touch_nothing.
+Print Assumptions dangerous_links_come_last.
+Print Assumptions final_component_is_not_followed.
+Print Assumptions confined_until_first_dangerous_link.
+Print Assumptions extraction_paths_are_relative.
